@@ -2,6 +2,7 @@ CONSTANTS
   MaxBlocks = 2
   Hs = {1, 2, 3, 4}
   Rich = FALSE
+  NthAll = FALSE
 SPECIFICATION Spec
 INVARIANTS Refines NoTwoBlanks Conservation Complete SideHonoured FitsPage Emit
 PROPERTIES Progress Terminates
